@@ -517,7 +517,6 @@ func c12R4(h H) {
 	_ = token.NoPos
 }
 
-
 // headerPending: v is a boolean that can be true only when a response header read with Header.Get is non-empty — the
 // test itself, or the result of module functions (methods, bound method values) all of whose returns are such tests.
 func headerPending(v ssa.Value, depth int) bool {
